@@ -18,7 +18,8 @@ RULE = ("relational pairs: a program emitting inner packets (any builder, single
         "parameters (ports, VNI < 2^24, ethertype, port index, raw); sessions are reused across statements so that "
         "sequence numbers advance.  Non-trivial = at least two encapsulated records; distinct by program text")
 NOTES = ["oracle on the implementation's output: peeling the layers of each record of the wrapped program with the "
-         "specification decoders (Spec.Tunnel vxlan_decode / gre_decode / erspan2_decode, extracted from Coq) must give "
+         "specification Spec.TunnelPeel.peel (extracted from Coq; made of the Spec.Tunnel decoders and the Spec.Wire readers only, "
+         "and proved against the builders for every nesting depth in Props/C06b.v: C06_nesting_transparent) must give "
          "exactly the corresponding record of the plain program, one outer packet per inner packet in the same order; "
          "each tunnel header must carry the session's parameters (VXLAN: I flag, VNI, UDP ports; GRE: protocol type; "
          "ERSPAN: 0x88be, for type II the S flag, version 1, port index) and, where present, the sequence number must "
